@@ -386,6 +386,13 @@ def r_provenance(ctx):
         if len(us) != 1 or not _in_cycle(I, us[0].gid):
             res.fail(p, "clone", "clone_fn must call T::clone exactly once per element", span=ctx.span_of(p))
             ok = False
+        cps = I.all_effects(("COPY",))
+        if cps:
+            res.fail(p, "bitwise", "clone_fn copies elements bitwise (%s) on some path: T::clone is skipped" % cps[0]["prim"], span=span_of_effect(cps[0]))
+            ok = False
+        if len(I.all_effects(("RETURN",))) != 1:
+            res.fail(p, "early-return", "clone_fn has an early return that bypasses the clone loop", span=ctx.span_of(p))
+            ok = False
         if [d for d in normal_drops(I) if ty_str(d["ty"]) == "T"]:
             res.fail(p, "drop", "clone_fn drops a T in the destination (assignment instead of write)", span=ctx.span_of(p))
             ok = False
@@ -401,7 +408,7 @@ def r_provenance(ctx):
 
 
 def _in_cycle(I, gid):
-    return gid in I.g.reachable_from(gid)
+    return gid in I.reachable_from(gid)
 
 
 def _reporters(res, ctx):
@@ -503,14 +510,17 @@ def r_allocconfined(ctx):
                     else:
                         res.fail(f["path"], "alloc-path", "%s reaches crate `%s` (%s) outside module mem::heap: stack-backed vectors must never touch the heap"
                                  % (f["path"], crate, path), span="%s:%s" % (f["span"]["file"], line))
-    # types from alloc in signatures / locals outside mem::heap
+    # any item of crate alloc/std (types of locals, callee definitions, generic arguments) mentioned by a body outside mem::heap
     for f in ctx.fx.fn_list:
         if f["path"].startswith("<mem::heap::") or f["path"].startswith("mem::heap::"):
             continue
-        for t in f["locals"]:
-            if t.get("s", "").startswith("alloc::") or " alloc::" in t.get("s", ""):
-                res.inst(func=f["path"])
-                res.fail(f["path"], "alloc-type", "a local of type %s (crate alloc) outside mem::heap" % t["s"], span=ctx.span_of(f["path"]))
+        bad = [c for c in f.get("crates", []) if c not in ("core", "any_vec", "compiler_builtins")]
+        res.inst(func=f["path"])
+        if bad:
+            res.fail(f["path"], "alloc-item", "%s mentions items of crate %s outside module mem::heap (types or functions): stack-backed vectors must never touch the heap"
+                     % (f["path"], ", ".join(bad)), span=ctx.span_of(f["path"]))
+        else:
+            res.ok()
     if "alloc" in ctx.config and "no-alloc" in ctx.config:
         if inside:
             res.fail("<crate>", "alloc-in-no-alloc", "alloc is referenced in the no-alloc configuration")
@@ -597,6 +607,14 @@ def r_heap(ctx):
         chk("checked-layout", bool(newl) and all(e["checked"] for e in newl),
             "the layout for the NEW size is built with Layout::from_size_align_unchecked: a byte size above isize::MAX reaches the allocator instead of panicking",
             newl[0] if newl else None)
+        for a in allocs:
+            chk("alloc-layout-validated", isinstance(a["layout"], tuple) and a["layout"][:1] == ("layout",) and a["layout"][3] == "checked",
+                "the layout given to alloc is not built by the checked constructor (sizes above isize::MAX must panic, not reach the allocator)", a)
+        for r in reallocs:
+            val = [e for e in I.all_effects(("LAYOUT_NEW",)) if e["checked"] and as_poly(e["size"]) == as_poly(r["new_size"]) and not _reach(I, r, e)
+                   and (e.gid == r.gid or r.gid in I.reachable_from(e.gid))]
+            chk("realloc-size-validated", bool(val), "the new size given to realloc is not validated by a checked Layout constructor on the path to the call "
+                "(sizes above isize::MAX must panic, not reach the allocator)", r)
         nc = I.all_effects(("NULLCHECK", "UNWRAP"))
         nn = [c for c in I.calls.values() if "indirect" not in c["callee"] and c["callee"]["path"] == "core::ptr::NonNull::<T>::new"]
         st_mem = [e for e in I.all_effects(("STORE",)) if e["path"] == (("P", 1), ("mem",))]
@@ -720,6 +738,36 @@ def r_align(ctx):
                                  span=ctx.span_of(p))
                 else:
                     res.fail(p, "unknown-pointer", "cannot classify the storage pointer %s" % (v,), kind="coverage-lost")
+    # pointer producers inside storage backends: only the allocator, dangling(layout), inline buffers and caller-supplied handles
+    ALLOWED = ("alloc", "realloc", "alloc_zeroed", "new", "new_unchecked", "unwrap", "expect", "unwrap_or_else", "as_ptr", "as_mut_ptr", "cast", "dangling", "from",
+               "as_ref", "as_mut", "add")
+    for f in fx.fn_list:
+        st = f.get("impl_self_ty", {})
+        in_backend = (f.get("impl_trait") or "").startswith("mem::Mem") or f["path"].startswith("mem::") or f["path"].startswith("<mem::")
+        if not in_backend:
+            continue
+        for b in f["blocks"]:
+            tm = b["term"]
+            if tm["k"] != "call" or "indirect" in tm["callee"]:
+                continue
+            c = tm["callee"]
+            dty = f["locals"][tm["dest"]["local"]] if not tm["dest"]["proj"] else None
+            if dty is None:
+                continue
+            s = dty.get("s", "")
+            is_ptr = dty.get("k") == "ptr" or s.startswith("core::ptr::NonNull<") or s.startswith("core::option::Option<core::ptr::NonNull<")
+            if not is_ptr:
+                continue
+            res.inst(sample={"backend_fn": f["path"], "pointer_from": c["path"]}, func=f["path"])
+            if c["name"] in ALLOWED and not (c["path"] == "core::ptr::NonNull::<T>::dangling"):
+                if c["name"] == "dangling" and c["path"] != "mem::dangling":
+                    res.fail(f["path"], "pointer-source:" + c["name"], "storage pointer produced by %s, which is aligned for u8 only (use dangling(&element_layout))" % c["path"],
+                             span="%s:%s" % (f["span"]["file"], tm.get("line")))
+                else:
+                    res.ok()
+            else:
+                res.fail(f["path"], "pointer-source:" + c["name"], "storage pointer produced by %s: not known to be aligned for the element type" % c["path"],
+                         span="%s:%s" % (f["span"]["file"], tm.get("line")))
     # dangling() itself
     p = "mem::dangling"
     for tt, I in ctx.arms(p) or []:
@@ -874,14 +922,20 @@ def r_iter(ctx):
             res.ok()
         else:
             res.fail(p, "clone", "Iter::clone must copy any_vec_ptr, index and end field-wise", span=ctx.span_of(p))
-    # ops::Iter forwards each method to the same-named method of the inner iterator
+    # every local iterator wrapper forwards each method to the same-named method of the inner iterator
+    nwrap = 0
     for im in fx.impls:
-        if im["self_ty"].get("path") != "ops::iter::Iter" or not im.get("trait", "").startswith("core::iter::"):
+        tr = im.get("trait") or ""
+        if tr not in ("core::iter::Iterator", "core::iter::DoubleEndedIterator", "core::iter::ExactSizeIterator"):
+            continue
+        sp = im["self_ty"].get("path")
+        if im["self_ty"].get("k") != "adt" or sp == "iter::Iter" or sp not in fx.adts:
             continue
         for it in im["items"]:
             if not it["kind"].startswith("Fn"):
                 continue
             p = it["path"]
+            nwrap += 1
             for tt, I in ctx.arms(p) or []:
                 us = [e for e in I.all_effects(("USER",)) if e["what"].startswith("iter-")]
                 res.inst(sample={"wrapper": p, "forwards_to": [u["forwards"] for u in us]}, func=p)
@@ -889,6 +943,8 @@ def r_iter(ctx):
                     res.ok()
                 else:
                     res.fail(p, "forward", "%s must forward to the inner iterator's `%s`, forwards to %s" % (it["name"], it["name"], [u["forwards"] for u in us]), span=ctx.span_of(p))
+    if nwrap < 4:
+        res.coverage_lost("ops::iter::Iter", "expected >= 4 forwarding iterator methods, found %d" % nwrap)
     # ElementIterator = DoubleEnded + ExactSize + Fused, implemented by the cursor iterator and the wrapper
     tr = fx.traits.get("iter::ElementIterator")
     res.inst(sample={"trait": "iter::ElementIterator", "super": tr and tr["super"]})
